@@ -244,6 +244,11 @@ func (ls *listsSharder) splitPeerIds(peers []peer.ID) map[int]sorting.PeerDistan
 			Distance: ls.computeDistance(p, ls.selfPeerId),
 		}
 		pid := core.PeerID(p)
+		if ls.preferredPeersHolder.Contains(pid) {
+			// preferred peers are never proposed for eviction, not even when they are seeders
+			continue
+		}
+
 		isSeeder := ls.IsSeeder(pid)
 		if isSeeder {
 			peerDistances[seeders] = append(peerDistances[seeders], pd)
